@@ -116,6 +116,11 @@ fn tables_from(b: Bind<SynNoRef>, first: usize, rep: &mut Report) {
         judge_table(&[e0, e1], |q, to| ConversionTable::<SynNoRef, 2> { mappings: [e0, e1] }.convert(q, to), &b, rep);
         for &e2 in &kinds {
             judge_table(&[e0, e1, e2], |q, to| ConversionTable::<SynNoRef, 3> { mappings: [e0, e1, e2] }.convert(q, to), &b, rep);
+            if thorough() {
+                for &e3 in &kinds {
+                    judge_table(&[e0, e1, e2, e3], |q, to| ConversionTable::<SynNoRef, 4> { mappings: [e0, e1, e2, e3] }.convert(q, to), &b, rep);
+                }
+            }
         }
     }
     if first == 5 {
